@@ -1871,6 +1871,10 @@ namespace jsoncons {
                                     auto r = val1 - val2; 
                                     return r == 0 ? 0 : (r < 0.0 ? -1 : 1);
                                 }
+                                else if (is_string_storage(rhs.storage_kind()))
+                                {
+                                    return as_string_view().compare(rhs.as_string_view()); // plain text on the other side: compare as text, as it does
+                                }
                                 else
                                 {
                                     return static_cast<int>(storage_kind()) - static_cast<int>(rhs.storage_kind());
